@@ -94,12 +94,12 @@ def check_slot(item):
         if bad:
             r, mod = p.check(model=True)
         else:
-            r, mod = p.check(z3.Or(*diffs), model=True)
+            r, mod, which_ = p.check_any(diffs, names)
         if r == 'unknown':
             res['inconclusive'].append(name + ': solver unknown')
             return
         if r == 'sat':
-            which = bad or ', '.join(n for n, d in zip(names, diffs) if z3.is_true(mod.eval(d, model_completion=True)))
+            which = bad or ', '.join(which_)
             regs, mem, inputs = simcheck.model_state(mod, m)
             res['violations'].append(dict(key='%s:%s' % (name, which), text='%s differs from the Z80 reference in: %s' % (name, which),
                                           case=dict(kind='step', cls=cls_name, machine=mach, tracer=tracer, slot=list(slot), regs=regs, mem=mem, inputs=inputs)))
